@@ -19,6 +19,7 @@ when_all has no stop source: a failing child does **not** request stop of its si
 
 What the layer adds (history fields, never tested by `step` except in the `n = 0` branch):
 
+* `started`, `starterT` - `start()` was called, by thread `starterT`;
 * `cur t`   - the child whose receiver call thread `t` is executing;
 * `lastC`   - the child whose decrement reached zero; `issuer` / `issuerT` - the child / thread that called
               the downstream receiver;
@@ -43,6 +44,7 @@ structure St where
   b : WhenAll.St
   cfg : Cfg
   started : Bool
+  starterT : Nat
   cur : Nat → Option Nat
   lastC : Option Nat
   issuer : Option Nat
@@ -52,7 +54,7 @@ structure St where
   uaf : Bool
 
 def init (c : Cfg) (n : Nat) : St :=
-  { b := WhenAll.init n, cfg := c, started := false, cur := fun _ => none, lastC := none, issuer := none,
+  { b := WhenAll.init n, cfg := c, started := false, starterT := 0, cur := fun _ => none, lastC := none, issuer := none,
     issuerT := none, freed := false, nfree := 0, uaf := false }
 
 /-- Events that read or write the operation state: `start()` (reads the child operation states), a leaf
@@ -79,6 +81,10 @@ def lastAfter (s : St) : Ev → Option Nat
   | .dec t => if s.b.remaining = 1 then s.cur t else s.lastC
   | _ => s.lastC
 
+def starterAfter (s : St) : Ev → Nat
+  | .invStart t => t
+  | _ => s.starterT
+
 def isRcv : Ev → Bool
   | .rcv _ _ _ => true
   | _ => false
@@ -93,7 +99,7 @@ def b2n (b : Bool) : Nat := if b then 1 else 0
 def step0 (s : St) : Ev → Option St
   | .invStart t =>
     if s.b.pc t = .idle ∧ s.started = false then
-      some { s with b := { s.b with pc := upd s.b.pc t .starting }, started := true, uaf := s.uaf || s.freed }
+      some { s with b := { s.b with pc := upd s.b.pc t .starting }, started := true, starterT := t, uaf := s.uaf || s.freed }
     else none
   | .rcv t ch v =>
     if s.b.pc t = .starting ∧ s.b.delivered = 0 ∧ ch = 0 ∧ v = 0 then
@@ -114,7 +120,7 @@ def step (s : St) (e : Ev) : Option St :=
     match WhenAll.step s.b e with
     | none => none
     | some b' =>
-      some { s with b := b', started := true, cur := curAfter s e, lastC := lastAfter s e,
+      some { s with b := b', started := true, starterT := starterAfter s e, cur := curAfter s e, lastC := lastAfter s e,
                     issuer := if isRcv e then s.cur (tidOf e) else s.issuer,
                     issuerT := if isRcv e then some (tidOf e) else s.issuerT,
                     freed := s.freed || (isRcv e && s.cfg.selfdel),
